@@ -75,6 +75,16 @@ Theorem C06_rejected_delivered_whole : forall cfg orc ocd evs r site, let h := r
 Proof. exact rejected_delivered_whole. Qed.
 Print Assumptions C06_rejected_delivered_whole.
 
+(* ... and it IS closed: after at most [pending] client-writable events that each accept at least
+   one byte (pending = bytes still buffered + number of buffered packets), whatever else the
+   client sends meanwhile.  The connection is never kept open after the decision to reject. *)
+Theorem C06_rejected_closes : forall cfg orc ocd evs ws,
+  rejected (run cfg orc ocd evs) = true -> 1 <= max_send cfg ->
+  Forall accepts ws -> (pending (run cfg orc ocd evs) <= length ws)%nat ->
+  torn (run cfg orc ocd (evs ++ ws)) = true.
+Proof. exact rejected_closes. Qed.
+Print Assumptions C06_rejected_closes.
+
 (* Waiting, bare close, client gone: nothing of the handler's own making is ever emitted. *)
 Theorem C06_bare_close_clean : forall cfg orc ocd evs, let h := run cfg orc ocd evs in
   hq h = [] -> sent h ++ concat (buffer h) = concat (pq h).
@@ -93,6 +103,14 @@ Theorem C06_on_request_complete_at_most_once : forall cfg orc ocd evs, let h := 
   orc_calls h <= 1 /\ (orc_calls h = 1 <-> plugin h <> None).
 Proof. exact orc_at_most_once. Qed.
 Print Assumptions C06_on_request_complete_at_most_once.
+
+(* No rejection in the model is an artefact of the fuel of the parser model: on every reachable
+   state the request parser satisfies the invariant under which Http/ParserFacts.v (C03) proves
+   that parse never returns Err OutOfFuel. *)
+Theorem C06_parse_never_out_of_fuel : forall cfg orc ocd evs d,
+  parse (request (run cfg orc ocd evs)) d <> Err OutOfFuel.
+Proof. exact parse_never_out_of_fuel_on_runs. Qed.
+Print Assumptions C06_parse_never_out_of_fuel.
 
 (* ------------------------------------------------------------------ the builders *)
 
